@@ -172,6 +172,10 @@ Print Assumptions C14_known_findings_refuted.
 Theorem C14_test_not_refuted : refutes w_test_not = true /\ refutes w_subst_test_not = true /\ refutes w_setdiff_test_not = true.
 Proof. exact test_not_refuted. Qed.
 Print Assumptions C14_test_not_refuted.
+Theorem C14_if_not_missing_refuted : refutes w_remove_if_not = true /\ refutes w_find_if_not = true /\
+  m_call w_remove_if_not = Some (RErr EUndefined) /\ s_call w_remove_if_not = Some (RSeq [0]) /\ s_call w_find_if_not = Some (RElt 1).
+Proof. exact if_not_missing_refuted. Qed.
+Print Assumptions C14_if_not_missing_refuted.
 Theorem C14_count_nil_refuted : refutes w_count_nil = true.
 Proof. exact count_nil_refuted. Qed.
 Print Assumptions C14_count_nil_refuted.
